@@ -115,7 +115,11 @@ def oracle_query(proj: dict, values: Dict[Any, Any], q: List[Any], res: Any) -> 
                     % ('.'.join([m] + qual), dotted, x))
     if len(parts) == 2 and parts[0] in binders:
         kv = values.get((m, tuple(qual), parts[0]))
-        if kv is not None and kv[0] == 'mod' and v[0] == 'obj' and v[1] == kv[1] and v[2] == parts[1]:
+        b = binders[parts[0]]
+        # a module alias: `import X as k`, `import k`, or `from P import S [as k]` with P.S a module
+        is_alias = kv is not None and kv[0] == 'mod' and (
+            (b[0] == 'module' and b[1] == kv[1]) or (b[0] == 'from' and b[1] + '.' + b[2] == kv[1]))
+        if is_alias and kv[0] == 'mod' and v[0] == 'obj' and v[1] == kv[1] and v[2] == parts[1]:
             return ('module-alias-unresolved',
                     'in %s the name %r reaches %s through the module alias %r but pydoctor does not resolve it'
                     % ('.'.join([m] + qual), dotted, want, parts[0]))
@@ -151,7 +155,8 @@ def corpus() -> List[dict]:
     ], 'order': None})
     out.append({'tag': 'import-forms', 'modules': [
         M('a', [], True), M('a.b', [['class', 'Q', None, []]]),
-        M('a.c', [], True), M('a.c.d', [['def', 'fn'], ['from', 3, 'b', [['Q', None]]], ['from', 2, '', [['b', 'bmod']]]]),
+        M('a.c', [], True), M('a.c.d', [['def', 'fn'], ['from', 2, 'b', [['Q', None]]], ['from', 2, '', [['b', 'bmod']]]]),
+        M('a.c.e', [], True), M('a.c.e.f', [['from', 3, 'b', [['Q', 'Q3']]], ['from', 2, 'd', [['fn', None]]], ['from', 1, '', [['f', 'me']]]]),
         M('c', [['import', 'a.b', None], ['import', 'a.b', 'ab'], ['from', 0, 'a', [['b', None]]],
                 ['from', 0, 'a', [['b', 'bb']]], ['import', 'a.c.d', 'acd'],
                 ['class', 'K', 'ab.Q', [['import', 'a.c.d', 'inner'], ['from', 0, 'a.b', [['Q', 'QQ']]],
